@@ -736,3 +736,57 @@ def one_config(w, conf, rnd):
         k += 1
     w.ctrl = None
     return v
+
+
+# =====================================================================================================================
+def check_failure_recovery(seed, n_cases=0):
+    """C09 / C15 / C11 (deterministic): after a call / executor run / setup() that FAILED, the next operation on the same DAG
+    instance (and on another DAG) returns, and returns what a freshly built DAG returns; nothing held by the failed call
+    (a lock, a half-written result) survives it.  The failing node is the setup node itself or a later node; the setup node
+    returns a value or None."""
+    import asyncio
+
+    viol, cases = [], 0
+    for is_async in (False, True):
+        for first in ("call", "executor", "setup"):
+            for bad in ("s", "b"):
+                for none_valued in (False, True):
+                    if first == "setup" and bad == "b":
+                        continue  # setup() does not run b
+                    nodes = [dict(id="s", deps=[], prio=0, seq=False, res="thread", setup=True), dict(id="a", deps=[("s", [])], prio=0, seq=False, res="thread"),
+                             dict(id="b", deps=[("a", [])], prio=0, seq=False, res="main" if not is_async else "async"), dict(id="c", deps=[], prio=0, seq=False, res="thread")]
+                    if none_valued:
+                        nodes[0]["value"] = None
+                    w = World(nodes)
+                    other = World([dict(n) for n in nodes])
+                    dag, dag2 = w.build_dag(is_async=is_async), other.build_dag(is_async=is_async)
+                    aw = (lambda c: asyncio.run(c)) if is_async else (lambda c: c)
+                    ops = {"call": lambda d: aw(d()), "executor": lambda d: aw(d.executor()()), "setup": lambda d: aw(d.setup())}
+                    cases += 1
+                    v = []
+                    w.nodes[bad]["fails"] = True
+                    o1, _ = run_controlled(lambda: ops[first](dag), w)
+                    w.nodes[bad]["fails"] = False
+                    if o1[0] != "raise":
+                        v.append(f"{first} with failing node {bad} -> {o1[0]} instead of raising")
+                    for nxt, d_, w_ in (("call", dag, w), ("executor", dag, w), ("setup", dag, w), ("call on ANOTHER DAG", dag2, other)):
+                        w_.calls = {}
+                        o2, _ = run_controlled(lambda: ops[nxt.split()[0]](d_), w_)
+                        if o2[0] == "nonterminating":
+                            v.append(f"after a failed {first} (node {bad} raised), the next {nxt} did not return: {o2[1]}")
+                            break
+                        if o2[0] == "raise":
+                            v.append(f"after a failed {first} (node {bad} raised), the next {nxt} raised {o2[1]!r}")
+                            break
+                        if nxt != "setup":
+                            exp = fresh_result(w_, ()) if not is_async else None
+                            if exp is not None and exp[0] == "return" and o2[1] != exp[1]:
+                                v.append(f"after a failed {first}, the next {nxt} returned {o2[1]!r}, a freshly built DAG returns {exp[1]!r}")
+                        if w_.calls.get("s", 0) > 1:
+                            v.append(f"[C11] setup node ran {w_.calls['s']} times in one {nxt}")
+                    if v:
+                        viol.append(dict(kind="history", check="failure_recovery", seed=seed, index=cases, world=w.describe(), is_async=is_async, first=first, failing=bad, violations=v))
+                        if any("did not return" in m for m in v):
+                            return viol, cases  # every further hang costs the wall-clock watchdog
+    return viol, cases
+
